@@ -7,6 +7,7 @@ two further attempts, each compared with a fresh configure."""
 import json
 import os
 
+from engine import TreeBroken
 from engine import (Check, tlc, tlc_ok, validate, validate_traces, pmap, BIN,
                     MachineryError)
 import regen
@@ -116,11 +117,11 @@ def prepare(name, files, edit, backend):
     p = regen.Proj(files, backend=backend)
     rc, out = p.configure()
     if rc != 0:
-        raise MachineryError('configure failed in scenario %s: %s' %
+        raise TreeBroken('configure failed in scenario %s: %s' %
                              (name, out[-300:]))
     rc, out = p.tool()
     if rc != 0:
-        raise MachineryError('first build failed in %s: %s' % (name,
+        raise TreeBroken('first build failed in %s: %s' % (name,
                                                                out[-300:]))
     p.tick()
     ev = edit(p)
@@ -130,7 +131,7 @@ def prepare(name, files, edit, backend):
     rc, out = p.tool(shim={'BFG9000_VERIF_LOG': log})
     muts = regen.read_mutlog(log)
     if not muts:
-        raise MachineryError('no mutation points recorded in %s: %s' %
+        raise TreeBroken('no mutation points recorded in %s: %s' %
                              (name, out[-300:]))
     return p, ev, muts, fresh
 
